@@ -41,10 +41,12 @@ ASSUMPTIONS = ["entries may disappear through the documented paths only: destroy
 REACH = ["shared_relay_pairs", "forged_create_live_exit_before_expiry", "forged_create_live_exit_after_expiry",
          "forged_create_live_relay", "forged_destroy_non_neighbour", "forged_destroy_spoofed_source", "replayed_destroy", "cross_circuit_body",
          "garbage_on_live_id", "unknown_id_cell", "legit_destroy_removed_only_own", "data_delivered",
-         "created_relabelled_with_live_exit_id", "signed_message_replayed_from_adversary_address", "forged_created_badauth", "forged_created_shortkey"]
+         "created_relabelled_with_live_exit_id", "signed_message_replayed_from_adversary_address", "forged_created_badauth", "forged_created_shortkey",
+         "plaintext_flagged_data_on_live_exit_id", "nested_data_message_from_outside", "data_cell_into_half_built_circuit", "custom_join_policy"]
 
 ATTACKS = ["unknown_id", "garbage_live", "cross_body", "create_live", "create_live", "destroy_own_sig", "destroy_replay",
-           "destroy_spoofed_src", "created_cid_swap", "signed_replay_adv", "forged_created_badauth", "forged_created_shortkey"]
+           "destroy_spoofed_src", "created_cid_swap", "signed_replay_adv", "forged_created_badauth", "forged_created_shortkey",
+           "plain_data_live", "nested_data_from_outside", "data_into_half_built"]
 
 
 def cases(tier: str, base_seed: int):  # noqa: ANN201
@@ -54,7 +56,8 @@ def cases(tier: str, base_seed: int):  # noqa: ANN201
         for kind in sorted(set(ATTACKS)):
             n += 1
             yield {"seed": base_seed + n, "knobs": {}, "originators": 2, "pool": 3, "circuits": [2, 2, 1, 3], "wait": wait,
-                   "attacks": [{"kind": kind, "pick": k / 7.0} for k in range(6)]}
+                   "attacks": [{"kind": kind, "pick": k / 7.0} for k in range(6)],
+                   "join_policy": "accept_all" if kind == "create_live" and wait > 60 else None}
     for i in itertools.count():
         seed = base_seed + 1000 + i
         rng = random.Random(f"c05/{seed}")
@@ -63,7 +66,8 @@ def cases(tier: str, base_seed: int):  # noqa: ANN201
                "circuits": [rng.choice([1, 2, 2, 3]) for _ in range(ncirc)], "wait": rng.choice([5.0, 70.0, 70.0]),
                "knobs": {"lat_jit": rng.choice([0.0, 0.02, 0.1]), "dup": rng.choice([0.0, 0.0, 0.05]),
                          "timer_jitter": rng.choice([0.0, 0.001])},
-               "attacks": [{"kind": rng.choice(ATTACKS), "pick": rng.random()} for _ in range(rng.choice([2, 5, 12]))]}
+               "attacks": [{"kind": rng.choice(ATTACKS), "pick": rng.random()} for _ in range(rng.choice([2, 5, 12]))],
+               "join_policy": rng.choice([None, None, "accept_all"])}
 
 
 def execute(case: dict) -> dict:  # noqa: C901, PLR0915
@@ -156,6 +160,13 @@ def execute(case: dict) -> dict:  # noqa: C901, PLR0915
         await tw.build()
         await tw.introduce()
         adv = tw.nodes[-1]
+        if case.get("join_policy") == "accept_all":
+            # should_join_circuit is a hook meant to be overridden: an application policy that does not consult the default one
+            for node in tw.nodes[:-1]:
+                async def accept_all(payload, addr) -> bool:  # noqa: ANN001
+                    return True
+                node.ov.should_join_circuit = accept_all
+            world.probe("custom_join_policy")
         # build all circuits concurrently so that their handshakes interleave at the shared relays
         pending = []
         for idx, hops in enumerate(case["circuits"]):
@@ -265,6 +276,62 @@ def execute(case: dict) -> dict:  # noqa: C901, PLR0915
                     c.nontrivial(f"destroy_spoofed/{tname}/{after_expiry}")
                     pkt_d = adv.call(adv.ov.ezr_pack, DestroyPayload.msg_id, DestroyPayload(cid, 1 + int(pick * 3)))
                     net.inject(tuple(hop.address), target.address, pkt_d, label="forged_destroy")
+            elif kind == "plain_data_live":
+                # a well-formed DataPayload that simply claims to be plaintext, under the id of an established exit entry, towards an
+                # outside server of the adversary's choosing
+                if tname == "exit_sockets" and circuits:
+                    from ipv8.messaging.serialization import Serializer
+                    ser = Serializer()
+                    victim_ci = circuits[int(pick * 977) % len(circuits)]
+                    evil = b"d" + b"PLAINEVIL%04d" % int(pick * 9999) + b"e"
+                    body = b"\x01" + ser.pack("address", tuple(victim_ci["w"].address)) + ser.pack("address", ("0.0.0.0", 0)) + evil
+                    world.probe("plaintext_flagged_data_on_live_exit_id")
+                    c.nontrivial(f"plain_data_live/{after_expiry}")
+                    for flags in (b"\x01\x00", b"\x01\x01"):
+                        net.inject(adv.address, target.address, prefix + b"\x00" + cid.to_bytes(4, "big") + flags + body)
+            elif kind == "nested_data_from_outside":
+                # an outside host answers into circuit X with a datagram that LOOKS like a message of the tunnel overlay: a data message
+                # naming another circuit Y of the same originator (ids are in the clear in every cell header), with made-up content
+                own = [ci for ci in circuits if ci["circ"].state == "READY" and ci["w"].received]
+                if own:
+                    from ipv8.messaging.serialization import Serializer
+                    ser = Serializer()
+                    x = own[int(pick * 971) % len(own)]
+                    others = [ci for ci in circuits if ci["o"] is x["o"] and ci is not x] or [x]
+                    y = others[int(pick * 13) % len(others)]
+                    evil = b"d" + b"NESTEDEVIL%04d" % int(pick * 9999) + b"e"
+                    nested = x["o"].ov.get_prefix() + b"\x01" + y["circ"].circuit_id.to_bytes(4, "big") + \
+                        ser.pack("address", ("0.0.0.0", 0)) + ser.pack("address", ("6.6.6.6", 66)) + evil
+                    world.probe("nested_data_message_from_outside")
+                    c.nontrivial(f"nested_data/{x is y}")
+                    for src in sorted({s3 for _t, _d, s3 in x["w"].received}):
+                        x["w"].transport.sendto(nested, src)
+            elif kind == "data_into_half_built":
+                # a circuit whose first hop has not answered yet (its join policy takes a while) is sent an un-encrypted data cell by a
+                # third party
+                from ipv8.messaging.serialization import Serializer
+                ser = Serializer()
+                o = tw.nodes[int(pick * 7) % n_orig]
+                hopn = tw.nodes[n_orig]
+                inner_sj = hopn.ov.should_join_circuit
+
+                async def slow_join(payload, addr, _inner=inner_sj):  # noqa: ANN001, ANN202
+                    await asyncio.sleep(1.0)
+                    return await _inner(payload, addr)
+                hopn.ov.should_join_circuit = slow_join
+                from ipv8.peer import Peer
+                half = o.call(o.ov.create_circuit, 1, required_exit=Peer(hopn.my_peer.public_key.key_to_bin(), hopn.address))
+                hopn.ov.should_join_circuit = inner_sj if half is None else hopn.ov.should_join_circuit
+                if half is not None:
+                    await asyncio.sleep(0.2)
+                    evil = b"d" + b"HALFEVIL%04d" % int(pick * 9999) + b"e"
+                    body = b"\x01" + ser.pack("address", ("0.0.0.0", 0)) + ser.pack("address", ("6.6.6.6", 66)) + evil
+                    world.probe("data_cell_into_half_built_circuit")
+                    c.nontrivial("data_into_half_built")
+                    for flags in (b"\x00\x00", b"\x01\x00"):
+                        net.inject(adv.address, o.address, prefix + b"\x00" + half.circuit_id.to_bytes(4, "big") + flags + body)
+                    await asyncio.sleep(1.5)
+                    hopn.ov.should_join_circuit = inner_sj
             elif kind in ("forged_created_badauth", "forged_created_shortkey"):
                 # circuits under construction: whoever saw the plaintext create answers before the real first hop does
                 c.nontrivial(f"{kind}/{after_expiry}")
